@@ -502,6 +502,51 @@ def generic_graph(kind: str, later_residual: bool, skip_source: str) -> Tuple[Li
 
 
 
+def towers(max_towers: int) -> Iterator[Tuple[str, List[Node]]]:
+    """DAGs that are not a single residual stream: 2-3 parallel towers, each a residual block
+    on its own input (or on a shared input through an opaque op), merged by mul / a plain add /
+    matmul, optionally followed by an op; every op of every tower has a later residual add"""
+    branches = {"mlp": ["linear", "gelu", "linear"], "softmax": ["linear", "softmax"], "unmapped": ["tanh"]}
+    merges = {"mul": "operator.mul", "plain_add": "operator.add", "matmul": "torch.matmul"}
+    for nt in range(2, max_towers + 1):
+        for combo in itertools.product(sorted(branches), repeat=nt):
+            for merge in sorted(merges):
+                for tail in ("none", "gelu"):
+                    for shared in (False, True):
+                        g: List[Node] = [node("w", "placeholder", "w")]
+                        k = itertools.count()
+
+                        def emit(t: str, a: List[Any], kw: Optional[Dict[str, Any]] = None) -> str:
+                            name = f"v{next(k)}"
+                            g.append(node(name, "call_function", t, a, kw or {}))
+                            return name
+
+                        outs = []
+                        if shared:
+                            g.append(node("x", "placeholder", "x"))
+                        for ti, b in enumerate(combo):
+                            if shared:
+                                skip = emit("user.plain", [ref("x")])
+                            else:
+                                g.insert(ti, node(f"x{ti}", "placeholder", f"x{ti}"))
+                                skip = f"x{ti}"
+                            h = skip
+                            for kind in branches[b]:
+                                if kind == "linear":
+                                    h = emit("F.linear", [ref(h), ref("w")])
+                                else:
+                                    t, a, kw = UNARY[kind](ref(h))
+                                    h = emit(t, a, kw)
+                            outs.append(emit("operator.add", [ref(skip), ref(h)]))
+                        cur = outs[0]
+                        for o in outs[1:]:
+                            cur = emit(merges[merge], [ref(cur), ref(o)])
+                        if tail == "gelu":
+                            cur = emit("F.gelu", [ref(cur)])
+                        g.append(node("output", "output", "output", [(ref(cur),)]))
+                        yield f"towers={'|'.join(combo)},merge={merge},tail={tail},shared_input={shared}", g
+
+
 def families(tier: str) -> List[Tuple[str, List[Node], Dict[str, str]]]:
     out: List[Tuple[str, List[Node], Dict[str, str]]] = []
     for label, g in residual_chains(2 if tier == "quick" else 3):
@@ -510,6 +555,8 @@ def families(tier: str) -> List[Tuple[str, List[Node], Dict[str, str]]]:
         out.append((f"ops={ops}", build(ops), {}))
     for ops in enumerate_ops(2 if tier == "quick" else 3, ["user", "gelu", "add_scalar", "radd_scalar", "layer_norm"], ["iadd", "torch_add", "add"]):
         out.append((f"ops={ops},replace", build(ops), {"user.fn": "user.scaled", "F.gelu": "user.gelu"}))
+    for label, g in towers(2 if tier == "quick" else 3):
+        out.append((label, g, {}))
     for kind in GENERIC_NODES:
         for later_residual, skip_source in itertools.product([False, True], ["opaque", "plain_sum", "residual_output"]):
             g, rep = generic_graph(kind, later_residual, skip_source)
